@@ -249,7 +249,7 @@ def H2(vc):
 
 
 # ----------------------------------------------------------------------------------------------- H3
-@harness('H3', targets='kopf._core.reactor.processing.process_resource_causes', props=['C07', 'C08'],
+@harness('H3', targets='kopf._core.reactor.processing.process_resource_causes', props=['C07', 'C08', 'C02', 'C14'],
          clauses=['changing_precondition', 'low_level_first', 'passes_through'],
          canaries=['canary.never_waits', 'canary.handlers_only_without_expectation'],
          trusted=['process_watching_cause: returns None, may add to the patch content',
@@ -328,7 +328,7 @@ def H4(vc):
 
 
 # ----------------------------------------------------------------------------------------------- H5
-@harness('H5', targets='kopf._core.reactor.processing._detect_causes', props=['C03', 'C04', 'C05', 'C10', 'C14'],
+@harness('H5', targets='kopf._core.reactor.processing._detect_causes', props=['C03', 'C04', 'C05', 'C10', 'C14', 'C15'],
          clauses=['old_is_cleared_stored', 'new_is_cleared_built', 'one_diff', 'initial_formula', 'reset_is_essential_change',
                   'detectors_gated', 'passes_through'],
          canaries=['canary.always_initial', 'canary.always_all_causes'],
@@ -436,7 +436,7 @@ def H5(vc):
 
 
 # ----------------------------------------------------------------------------------------------- H6
-@harness('H6', targets='kopf._core.reactor.processing.process_resource_event', props=['C03', 'C08', 'C17', 'C14', 'C12'],
+@harness('H6', targets='kopf._core.reactor.processing.process_resource_event', props=['C03', 'C08', 'C17', 'C14', 'C12', 'C07'],
          clauses=['order', 'index_gate', 'apply_unless_deleted', 'patch_threaded', 'inside_throttled', 'throttled_at_call_site',
                   'posting_context', 'recall_flag', 'passes_through'],
          canaries=['canary.always_applies', 'canary.never_forgets', 'canary.remaining_never_changes'],
@@ -852,7 +852,7 @@ def _plain_json(x):
 
 
 @harness('K3', targets=['kopf._cogs.structs.finalizers.block_deletion', 'kopf._cogs.structs.finalizers.allow_deletion'],
-         props=['C06', 'C08'],
+         props=['C06', 'C08', 'C03', 'C09', 'C15'],
          clauses=['block.appended_once_iff_absent', 'block.nothing_else_changes', 'block.idempotent',
                   'allow.removed_entirely', 'allow.others_keep_order_and_multiplicity', 'allow.empties_removed_only_when_empty',
                   'allow.nothing_else_changes', 'allow.idempotent'],
@@ -977,7 +977,7 @@ def _K3_concrete(vc, body, finalizer, which):
     return (which, F1 is not None, F1 or [])
 
 
-@harness('K3L', targets=['kopf._cogs.structs.finalizers.allow_deletion'], props=['C06', 'C08'],
+@harness('K3L', targets=['kopf._cogs.structs.finalizers.allow_deletion'], props=['C06', 'C08', 'C03', 'C09'],
          clauses=['indexof_iff_contains', 'first_occurrence', 'unit_split'], canaries=['canary.nothing_after_first'],
          timeout_ms=1500, native_check=False,
          assumes=['lemmas of the theory of sequences over an uninterpreted element sort (hence valid for JSON elements); '
@@ -1006,7 +1006,7 @@ from pyvc.bounded import bounded
 
 
 @bounded('K3b', targets=['kopf._cogs.structs.finalizers.block_deletion', 'kopf._cogs.structs.finalizers.allow_deletion'],
-         props=['C06', 'C08'], clauses=['block_is_append_if_absent', 'allow_is_filter_then_tidy', 'foreign_untouched', 'idempotent'],
+         props=['C06', 'C08', 'C03', 'C15'], clauses=['block_is_append_if_absent', 'allow_is_filter_then_tidy', 'foreign_untouched', 'idempotent'],
          universe='metadata.finalizers: every list of length <= 4 over {own finalizer, "a", "b"} (all positions, duplicates of each), '
                   'or absent; metadata: absent / {} / with other keys; with and without other top-level keys')
 def K3b(b):
